@@ -785,7 +785,8 @@ KEYLITS = [I(0), I(1), I(2), S("a"), S("b"), Fl(1.5), ("T", [I(1), I(2)]), ("b",
 
 class Shadow:
     """what the generator knows about a name: kind and creation rank bounds (to keep heaps acyclic)"""
-    def __init__(self, kind, rank, maxr, immut=False):
+    def __init__(self, kind, rank, maxr, immut=False, sz=1):
+        self.sz = sz          # rough upper bound on the size of the tree it shows (keeps histories from exploding)
         self.kind = kind      # list | tuple | map | scalar | unk
         self.rank = rank      # creation time of its own container (None: unknown / not a container)
         self.maxr = maxr      # upper bound on the creation time of anything reachable
@@ -822,6 +823,18 @@ def gen_history(rng, length, conflict, mode="mixed"):
     def pick(kinds):
         c = [i for i, s in enumerate(names) if s.kind in kinds]
         return rng.choice(c) if c else None
+
+    LIMIT = 120
+
+    def esz(e):
+        return 1 if e[2] is not None else names[int(e[1][1:])].sz
+
+    def grow(x, amount):
+        """account for `amount` more nodes under name x; False when that would make the value too big"""
+        if names[x].sz + amount > LIMIT:
+            return False
+        names[x].sz += amount
+        return True
 
     def pick_any():
         """a name to alias / copy / compare: mostly containers"""
@@ -874,14 +887,18 @@ def gen_history(rng, length, conflict, mode="mixed"):
         if not names or c < 12:
             k = rng.below(4)
             es = [elem_atom(now) for _ in range(k)]
+            if 1 + sum(esz(e) for e in es) > LIMIT:
+                continue
             add("(ONewList [" + "; ".join(e[0] for e in es) + "])", "[" + ", ".join(e[1] for e in es) + "]",
-                Shadow("list", now, now))
+                Shadow("list", now, now, sz=1 + sum(esz(e) for e in es)))
         elif c < 17:
             k = rng.below(3)
             es = [elem_atom(now) for _ in range(k)]
             txt = "(" + ", ".join(e[1] for e in es) + ("," if k == 1 else "") + ")"
             immut = all(e[2] is not None for e in es)
-            add("(ONewTuple [" + "; ".join(e[0] for e in es) + "])", txt, Shadow("tuple", None, now, immut))
+            if 1 + sum(esz(e) for e in es) > LIMIT:
+                continue
+            add("(ONewTuple [" + "; ".join(e[0] for e in es) + "])", txt, Shadow("tuple", None, now, immut, sz=1 + sum(esz(e) for e in es)))
         elif c < 23:
             add("ONewMap", "{}", Shadow("map", now, now))
         elif c < 29:
@@ -891,60 +908,65 @@ def gen_history(rng, length, conflict, mode="mixed"):
         elif c < 35:
             x = pick_any()
             s = names[x]
-            add(f"(OCopy {x})", f"koto.copy(v{x})", Shadow(s.kind, now if s.kind in ("list", "map") else s.rank, now, s.immut))
+            add(f"(OCopy {x})", f"koto.copy(v{x})", Shadow(s.kind, now if s.kind in ("list", "map") else s.rank, now, s.immut, sz=s.sz))
         elif c < 41:
             x = pick_any()
             s = names[x]
-            add(f"(ODeepCopy {x})", f"koto.deep_copy(v{x})", Shadow(s.kind, now if s.kind in ("list", "map") else s.rank, now, s.immut))
+            add(f"(ODeepCopy {x})", f"koto.deep_copy(v{x})", Shadow(s.kind, now if s.kind in ("list", "map") else s.rank, now, s.immut, sz=s.sz))
         elif c < 47:
             x = pick(("list", "tuple", "map"))
             if x is None:
                 continue
             i = rng.below(4)
-            add(f"(OIndex {x} {i})", f"v{x}[{i}]", Shadow("unk", None, names[x].maxr))
+            add(f"(OIndex {x} {i})", f"v{x}[{i}]", Shadow("unk", None, names[x].maxr, sz=names[x].sz))
         elif c < 51:
             x = pick(("list", "tuple"))
             if x is None:
                 continue
             lo, hi = rng.below(3), rng.below(5)
             add(f"(OSlice {x} {lo} {hi})", f"v{x}[{lo}..{hi}]",
-                Shadow(names[x].kind, now if names[x].kind == "list" else None, now))
+                Shadow(names[x].kind, now if names[x].kind == "list" else None, now, sz=names[x].sz))
         elif c < 55:
             x = pick(("list", "tuple", "map"))
             if x is None:
                 continue
             y = pick((names[x].kind,))
-            add(f"(OConcat {x} {y})", f"v{x} + v{y}", Shadow(names[x].kind, now if names[x].kind != "tuple" else None, now))
+            if names[x].sz + names[y].sz > LIMIT:
+                continue
+            add(f"(OConcat {x} {y})", f"v{x} + v{y}",
+                Shadow(names[x].kind, now if names[x].kind != "tuple" else None, now, sz=names[x].sz + names[y].sz))
         elif c < 58:
             x = pick(("list", "unk"))
             if x is None:
                 continue
-            add(f"(OPop {x})", f"v{x}.pop()", Shadow("unk", None, names[x].maxr))
+            add(f"(OPop {x})", f"v{x}.pop()", Shadow("unk", None, names[x].maxr, sz=names[x].sz))
         elif c < 61:
             x = pick(("list",))
             if x is None:
                 continue
             i = rng.below(4)
-            add(f"(ORemoveAt {x} {i})", f"v{x}.remove({i})", Shadow("unk", None, names[x].maxr))
+            add(f"(ORemoveAt {x} {i})", f"v{x}.remove({i})", Shadow("unk", None, names[x].maxr, sz=names[x].sz))
         elif c < 69:
             x = pick(("map",))
             if x is None:
                 continue
             k = lit_atom(keys) if rng.chance(9, 10) else lit_atom([("T", [I(1), ("L", [])])] if False else keys)
             e = elem_atom(names[x].rank)
-            add(f"(OMapInsert {x} {k[0]} {e[0]})", f"v{x}.insert({k[1]}, {e[1]})", Shadow("unk", None, names[x].maxr))
+            if not grow(x, esz(e)):
+                continue
+            add(f"(OMapInsert {x} {k[0]} {e[0]})", f"v{x}.insert({k[1]}, {e[1]})", Shadow("unk", None, names[x].maxr, sz=names[x].sz))
         elif c < 72:
             x = pick(("map",))
             if x is None:
                 continue
             k = lit_atom(keys)
-            add(f"(OMapRemove {x} {k[0]})", f"v{x}.remove({k[1]})", Shadow("unk", None, names[x].maxr))
+            add(f"(OMapRemove {x} {k[0]})", f"v{x}.remove({k[1]})", Shadow("unk", None, names[x].maxr, sz=names[x].sz))
         elif c < 75:
             x = pick(("map",))
             if x is None:
                 continue
             k = lit_atom(keys)
-            add(f"(OMapGet {x} {k[0]})", f"v{x}.get({k[1]})", Shadow("unk", None, names[x].maxr))
+            add(f"(OMapGet {x} {k[0]})", f"v{x}.get({k[1]})", Shadow("unk", None, names[x].maxr, sz=names[x].sz))
         elif c < 78:
             x = pick_any()
             y = pick_any()
@@ -954,6 +976,8 @@ def gen_history(rng, length, conflict, mode="mixed"):
             if x is None:
                 continue
             e = elem_atom(names[x].rank)
+            if not grow(x, esz(e)):
+                continue
             mut(f"(OPush {x} {e[0]})", x, lambda r, e=e: f"{r}.push({e[1]})")
         elif c < 88:
             x = pick(("list",))
@@ -961,6 +985,8 @@ def gen_history(rng, length, conflict, mode="mixed"):
                 continue
             i = rng.below(4)
             e = elem_atom(names[x].rank)
+            if not grow(x, esz(e)):
+                continue
             mut(f"(OInsertAt {x} {i} {e[0]})", x, lambda r, e=e, i=i: f"{r}.insert({i}, {e[1]})")
         elif c < 91:
             x = pick(("list",))
@@ -968,6 +994,8 @@ def gen_history(rng, length, conflict, mode="mixed"):
                 continue
             i = rng.below(4)
             e = elem_atom(names[x].rank)
+            if not grow(x, esz(e)):
+                continue
             mut(f"(OSetIdx {x} {i} {e[0]})", x, lambda r, e=e, i=i: f"{r}[{i}] = {e[1]}")
         elif c < 93:
             x = pick(("list",))
@@ -979,6 +1007,8 @@ def gen_history(rng, length, conflict, mode="mixed"):
             if not cands:
                 continue
             y = rng.choice(cands)
+            if not grow(x, names[y].sz):
+                continue
             mut(f"(OListExtend {x} {y})", x, lambda r, y=y: f"{r}.extend(v{y})")
         elif c < 96:
             x = pick(("list", "map"))
@@ -993,6 +1023,8 @@ def gen_history(rng, length, conflict, mode="mixed"):
             if not cands:
                 continue
             y = rng.choice(cands)
+            if not grow(x, names[y].sz):
+                continue
             mut(f"(OMapExtend {x} {y})", x, lambda r, y=y: f"{r}.extend(v{y})")
         else:
             x = pick(("map",))
@@ -1001,6 +1033,8 @@ def gen_history(rng, length, conflict, mode="mixed"):
             i = rng.below(3)
             k = lit_atom(keys)
             e = elem_atom(names[x].rank)
+            if not grow(x, esz(e)):
+                continue
             mut(f"(OMapIdxAssign {x} {i} {k[0]} {e[0]})", x, lambda r, e=e, i=i, k=k: f"{r}[{i}] = ({k[1]}, {e[1]})")
     return ops, names
 
@@ -1081,7 +1115,7 @@ def run_histories(chk, binp, hists, fails, disagreements, stats, model_ok):
     vals = None
     if model_ok:
         header = "From Coq Require Import ZArith List.\nFrom KV.val Require Import ValModel HeapModel ValRun.\nImport ListNotations.\nOpen Scope Z_scope.\n"
-        terms = ["run_hist [" + "; ".join(o[0] for o in h["ops"]) + "]" for h in hists]
+        terms = ["run_hist_d [" + "; ".join(o[0] for o in h["ops"]) + "]" for h in hists]
         try:
             vals = C.coq_eval(UNIT, header, terms, tag="c14h", per_shard=(170 if len(terms) <= 1000 else 800))
         except RuntimeError as e:
@@ -1094,7 +1128,15 @@ def run_histories(chk, binp, hists, fails, disagreements, stats, model_ok):
         chk.count_case(src, nontrivial)
         stats["hist_" + h["origin"]] += 1
         stats["hist_ops"] += len(h["ops"])
-        mrows = vals[hi] if vals is not None else None
+        mrows = None
+        if vals is not None:
+            # rebuild the full rows from the per-step differences
+            mrows, cur = [], []
+            for st, (n, changed) in ((row[0], (row[1][0], row[1][1])) for row in vals[hi]):
+                cur = (cur + [None] * n)[:n]
+                for i, e in changed:
+                    cur[i] = e
+                mrows.append((st, list(cur)))
         panicked = "panic" in r
         if panicked:
             irows = []
